@@ -507,11 +507,12 @@ class Report:
 # --------------------------------------------------------------------------- ladder
 def pinned_query(ob, model):
     """pre & impl != oracle & (vars = model): the solver confirms a candidate counterexample."""
-    eqs = []
+    env = {}
     for v in tm.free_vars([ob.impl, ob.oracle] + ob.pre):
         if v.val in model and model[v.val] is not None:
-            eqs.append(tm.eq(v, tm.const(model[v.val])))
-    return ob.query() + eqs
+            env[v.val] = model[v.val]
+    # substituted (not conjoined as equalities): constants fold, exp/roots of constants get their value or enclosure
+    return tm.substitute(ob.query(), env)
 
 
 def prescreen(obs, sampler, rng, n_models=2):
